@@ -8,6 +8,7 @@ import MdIt.Drv.Render
 import MdIt.Drv.Url
 import MdIt.Drv.Core
 import MdIt.Drv.Inline
+import MdIt.Drv.InlineX
 import MdIt.Drv.Block
 import MdIt.Drv.Refs
 import MdIt.Drv.Mini
@@ -33,6 +34,8 @@ def handle (line : String) : String :=
   | "lblock" :: rest => Drv.lLine rest
   | "unescape" :: rest => Drv.unescapeLine rest
   | "inline" :: rest => Drv.inlineLine rest
+  | "inlinex" :: rest => Drv.inlineXLine rest
+  | "rx" :: rest => Drv.rxLine rest
   | "delims" :: rest => Drv.delimsLine rest
   | "textjoin" :: rest => Drv.textJoinLine rest
   | "smart" :: rest => Drv.smartLine rest
